@@ -17,7 +17,7 @@ from trie.exceptions import MissingTrieNode
 
 from .core import Blob, HarnessError, Violation, unhx
 from .models.mpt import BLANK_ROOT, RefMPT
-from .simdb import InjectedStorageError, SimDB
+from .simdb import InjectedStorageError, Interrupted, SimDB, make_store
 
 
 class ClientHandled(Exception):
@@ -108,7 +108,7 @@ class HWorld:
         self.cfg = cfg
         self.st = st
         self.ora = set(oracles)
-        self.db = SimDB()
+        self.db = make_store(cfg)
         self.prune = bool(cfg.get("prune"))
         n_handles = 1 if self.prune else int(cfg.get("handles", 1))
         # a pruning handle is given a reference-count table the caller keeps: the trie
@@ -187,6 +187,9 @@ class HWorld:
         try:
             return "ok", fn(*args)
         except Exception as e:
+            return "exc", e
+        except Interrupted as e:
+            # the client catches the interruption and carries on with the same objects
             return "exc", e
 
     # -- fault directives attached to a command -----------------------------------
@@ -370,7 +373,7 @@ class HWorld:
             h.ver += 1
             self.st.probe("batch-committed")
             return "ok"
-        except Exception as e:
+        except (Exception, Interrupted) as e:
             self.writes = self.disarm()
             self.cut.append([h.bstart, self.idx])
             self.post_commit(h, cmd, e)
